@@ -73,7 +73,7 @@ Section Builder.
        b_core := core';
        b_xs := b_xs b ++ [Build_rw r w];
        b_stack := b_stack b; b_last_if := b_last_if b;
-       b_seen := b_seen b ++ r ++ w;
+       b_seen := b_seen b ++ r ++ w ++ loopvars k;   (* loop counters are names in use, too *)
        b_gen := b_gen b; b_names := b_names b |}.
 
   (* for var_name in generator: if var_name not in seen: ... return *)
